@@ -61,6 +61,29 @@ def _plan(w, op):
         info["rows"] = list(rv.N)
         return rv, thunk
 
+    if kind == "make_handle":
+        rv, thunk = with_view(op["view"])
+        h = {"N": list(rv.N), "E": list(rv.E), "scope": rv.scope, "nctrl": dict(rv.nctrl), "ectrl": dict(rv.ectrl), "kind": rv.kind,
+             "syn_local": dict(rv.syn_local) if rv.syn_local else None, "epoch": w.epoch, "io_epoch": w.io_epoch, "view": None}
+        w.handles[op["id"]] = h
+
+        def do():
+            h["view"] = thunk()
+
+        return do, info
+
+    if op.get("view") and op["view"][0][0] == "handle":
+        # restrictions that keep a handle-based call inside the documented behaviour of views-as-snapshots
+        h = w.handles.get(op["view"][0][1])
+        if kind in ("delete_recordings", "delete_stimuli", "delete_clamps") and (h is None or h["io_epoch"] != w.io_epoch):
+            raise Unspec("delete through a handle created before the recordings / inputs changed")
+        if kind == "set" and op["key"] not in ("radius", "length", "axial_resistivity", "capacitance", "v"):
+            raise Unspec("handle-based set of a mechanism column")
+        if kind in ("record", "clamp") and op.get("state", "v") != "v":
+            raise Unspec("handle-based record / clamp of a mechanism state")
+        if kind in ("insert", "delete_channel", "make_trainable", "set_ncomp"):
+            raise Unspec("handle-based structural / trainable call")
+
     if kind == "set":
         rv, thunk = with_view(op["view"])
         key = op["key"]
@@ -349,6 +372,10 @@ def apply_op(w, op, index, check=True):
             out["outcome"] = "unexpected_refusal"
         else:
             out["outcome"] = "accepted"
+            if op["op"] in ("set_ncomp",):
+                w.epoch += 1
+            if op["op"] in ("record", "stimulate", "clamp", "delete_recordings", "delete_stimuli", "delete_clamps"):
+                w.io_epoch += 1
             if op["op"] == "move":
                 after = snap.snapshot(w.m, with_xyzr=False)
                 if after != before:
